@@ -242,6 +242,8 @@ def build_streams(rng, tier):
         Stream("grammar-directed", valid, hp, oracle_parse, tag=tag, nontrivial=lambda l, o: "5f" in l),
         Stream("mutated", mutated, hp, oracle_parse, tag=tag),
         Stream("k-local", kl, hg, oracle_klocal, tag=tag),
+        Stream("k-local-after-in-place-edits-of-handed-out-strings", [f"pol {j} {l}" for j, l in enumerate(kl[:200 if th else 60]) if l.startswith("klocal")],
+               polluted_klocal, lambda l, o: oracle_klocal(l.split(" ", 2)[2], o), model=False, tag=lambda l, o: "polluted:" + tag(l, o)),
         Stream("print-after-in-place-edit", [gen_edited(rng) for _ in range(6000 if tier == "thorough" else 1500)], edited_text,
                oracle=lambda l, o: None if o == "ok" else o, model=False, tag=lambda l, o: "edited:" + ("ok" if o == "ok" else "bad")),
     ]
@@ -250,6 +252,27 @@ RULE = ("grammar-directed sparse/dense/mixed texts with optional size (50%), den
         "mutations incl. non-ASCII digits, whitespace, signs, foreign letters (40%), a fixed list of boundary texts, int() "
         "semantics probes; k-local expansion of random generator lists (duplicates, colliding translates, n below/at/above "
         "the longest). Oracle = independent strict reference parser / direct translate enumeration. non-trivial: sparse items present")
+
+# ---- expansions built AFTER strings handed out by the factory (identities, single-letter strings, earlier expansions)
+# were edited in place: the paddings must still be identities
+def polluted_klocal(line):
+    import pollute
+    from paulie.common.pauli_string_factory import get_pauli_string
+    _, seed, rest = line.split(" ", 2)
+    t = rest.split(" ")
+    try:
+        n = int(t[1])
+        for m in range(1, min(n, 12) + 1):
+            pollute.pollute(m, f"{seed}:{m}")
+        try:
+            earlier = get_pauli_string(impl_graph.strs(t[2]), n=n)
+            for p in earlier:
+                p[0] = "Y" if str(p)[0] != "Y" else "X"
+        except Exception:
+            pass
+    except Exception as e:
+        return exc_name(e)
+    return impl_graph.handle(rest)
 
 def main(tier):
     return standard_main(PID, tier, "proof", THEOREMS, IMPORTS, build_streams, known_match=known_match, rule=RULE,
@@ -260,6 +283,14 @@ def main(tier):
 def replay(path):
     r = json.load(open(path))
     line = r.get("line")
+    if line.startswith("pol "):
+        out = polluted_klocal(line); why = oracle_klocal(line.split(" ", 2)[2], out)
+        print("line:", line); print("implementation:", out); print("oracle:", why or "holds")
+        return 1 if why else 0
+    if line.startswith("edtext "):
+        out = edited_text(line)
+        print("line:", line); print("oracle:", "holds" if out == "ok" else out)
+        return 0 if out == "ok" else 1
     kl = line.split(" ")[0] in ("klocal", "coll")
     out = (impl_graph.handle if kl else impl_ps.handle)(line)
     why = (oracle_klocal if kl else oracle_parse)(line, out)
